@@ -154,6 +154,13 @@ FIXED_GRAPHS = {
                                        ("put", "def put(x, k=None):\n    k.seen = 1\n    x.touched\n")],
     "static_method_order": [("K", "class K:\n    def __init__(self, u):\n        self.h = u.i\n\n    @staticmethod\n    def sm(v):\n        return v.static_attr\n"),
                             ("use", "def use(a):\n    return K.sm(a)\n")],
+    "starred_argument_chain": [("compute", "def compute(width, height):\n    return width.w * height.h\n"),
+                               ("area", "def area(size, scale):\n    return compute(*size) * scale.factor\n"),
+                               ("area_of_pair", "def area_of_pair(pair):\n    return area(*pair)\n"),
+                               ("report", "def report(config):\n    return area_of_pair(config.shape)\n")],
+    "starred_and_double_starred": [("sink", "def sink(a, *rest, **kw):\n    return a.sa, rest.sr, kw.sk\n"),
+                                   ("mid", "def mid(xs, opts):\n    return sink(*xs, **opts)\n"),
+                                   ("top", "def top(p, q):\n    return mid(p.items, q.options)\n")],
     "zero_arg_callees": [("reset", "def reset():\n    REG.ready = 1\n"), ("tag", "def tag(item):\n    item.seen = 1\n"),
                          ("run", "def run(item):\n    reset()\n    tag(item)\n"), ("again", "def again(item):\n    reset()\n    tag(item)\n")],
 }
